@@ -275,7 +275,7 @@ fn inline(case: &Case, file: usize, base: &Path, tags: &mut Vec<Tag>, pasted: &m
             tags.push(Tag { file, line: line_no });
             if let (Line::Include(refs), 0) = (l, k) {
                 pasted.push_str("# include directive\n");
-                if depth < 12 {
+                if depth < 64 {
                     for r in refs {
                         inline(case, r.file, base, tags, pasted, depth + 1);
                     }
@@ -315,7 +315,7 @@ fn first_malformed(case: &Case, file: usize, depth: usize) -> Option<(usize, usi
             Line::Malformed(_) => return Some((file, line_no + 1)),
             Line::Include(refs) => {
                 line_no += 1;
-                if depth < 12 {
+                if depth < 64 {
                     for r in refs {
                         if let Some(x) = first_malformed(case, r.file, depth + 1) {
                             return Some(x);
@@ -340,7 +340,7 @@ fn first_problem(case: &Case, file: usize, depth: usize, fault_file: Option<usiz
             Line::Malformed(_) => return Some(Problem::Malformed(file, line_no + 1)),
             Line::Include(refs) => {
                 line_no += 1;
-                if depth < 12 {
+                if depth < 64 {
                     for r in refs {
                         if Some(r.file) == fault_file {
                             return Some(Problem::Unreadable(r.file));
@@ -709,6 +709,29 @@ fn gen_case(rng: &mut Rng) -> Case {
         let pos = rng.usize(files[0].lines.len() + 1);
         files[0].lines.insert(pos, Line::Include(vec![IncRef { file: 1, absolute: false }]));
     }
+    // one tree in thirty carries a chain of 17-40 files, each including the next (acyclic, far deeper than the trees
+    // above): what is pasted at the bottom must arrive like everything else
+    if rng.chance(1, 30) {
+        let first = files.len();
+        let k = 17 + rng.usize(24);
+        for j in 0..k {
+            let mut lines = vec![];
+            emit_id += 1;
+            lines.push(Line::Emit(format!("e{}", emit_id)));
+            if j + 1 < k {
+                lines.push(Line::Include(vec![IncRef { file: first + j + 1, absolute: rng.chance(1, 6) }]));
+                emit_id += 1;
+                lines.push(Line::Emit(format!("e{}", emit_id)));
+            } else if rng.chance(1, 2) {
+                fail_id += 1;
+                lines.push(Line::Fail(format!("boom{}", fail_id)));
+            }
+            files.push(FileSpec { path: format!("run/deep/c{:02}.ds", j), lines, crlf: false, no_final_newline: false, shebang: false });
+        }
+        let pos = rng.usize(files[0].lines.len() + 1);
+        files[0].lines.insert(pos, Line::Include(vec![IncRef { file: first, absolute: false }]));
+    }
+    let n_files = files.len();
     // a forward goto to a label that comes later in the root file only (keeps both runs terminating)
     if rng.chance(1, 4) {
         let root_labels: Vec<(usize, String)> = files[0].lines.iter().enumerate().filter_map(|(k, l)| if let Line::Label(lb) = l { Some((k, lb.clone())) } else { None }).collect();
@@ -747,7 +770,7 @@ fn reachable(case: &Case, k: usize) -> bool {
         if f == k {
             return true;
         }
-        if depth > 12 {
+        if depth > 64 {
             return false;
         }
         case.files[f].lines.iter().any(|l| if let Line::Include(refs) = l { refs.iter().any(|r| walk(case, r.file, k, depth + 1)) } else { false })
